@@ -6,6 +6,7 @@ import (
 	"go/token"
 	"go/types"
 	"strconv"
+	"strings"
 
 	bmodel "github.com/reedom/convergen/pkg/builder/model"
 	gmodel "github.com/reedom/convergen/pkg/generator/model"
@@ -658,9 +659,18 @@ func (b *assignmentBuilder) sliceToSlice(lhs, rhs bmodel.Node) (a gmodel.Assignm
 			LHS:  lhs.AssignExpr(),
 			RHS:  rhs.AssignExpr(),
 			Typ:  "[]" + b.imports.TypeName(lhsElem),
-			Cast: b.imports.TypeName(lhsElem),
+			Cast: conversionOperator(b.imports.TypeName(lhsElem)),
 		}
 		return
 	}
 	return
+}
+
+// conversionOperator returns the type name as the operator of a conversion.
+// A pointer type needs parentheses: (*T)(x), not *T(x).
+func conversionOperator(typeName string) string {
+	if strings.HasPrefix(typeName, "*") {
+		return "(" + typeName + ")"
+	}
+	return typeName
 }
